@@ -78,3 +78,40 @@ SPEC("pane.util", "replace_typevars.bounded", bounded=True,
                ["C11", "C17"], "union-order")],
      no_raise=["C17"],
      note="bounded: a table of type expressions (nested generics, unions with overlapping members, tuples, callables)")
+
+
+# ---- C14 / C06, bounded: Cls(*args, **kw) == "bind, convert() each supplied argument to its field type, default the rest" ---------
+def expected_construct(cls, args, kwargs):
+    """('ok', {field: value}, supplied names) | ('TypeError',) | ('ConvertError',) -- derived from the signature, the field list and
+    pane.convert only (not from the generated __init__)."""
+    import inspect
+    import pane
+    from pane.field import _MISSING
+    try:
+        bound = inspect.signature(cls).bind(*args, **kwargs).arguments
+    except TypeError:
+        return ('TypeError',)
+    vals = {}
+    for f in cls.__pane_info__.fields:
+        if not f.init:
+            continue
+        if f.name in bound:
+            try:
+                vals[f.name] = pane.convert(bound[f.name], f.type)
+            except pane.ConvertError:
+                return ('ConvertError',)
+        elif f.default is not _MISSING:
+            vals[f.name] = f.default
+        else:
+            vals[f.name] = f.default_factory()
+    return ('ok', vals, set(bound))
+
+
+SPEC("pane.classes", "construct.bounded", bounded=True,
+     ensures=[(lambda cls, args, kwargs, result: result[0] == expected_construct(cls, args, kwargs)[0], ["C14", "C06"], "verdict"),
+              (lambda cls, args, kwargs, result: implies(result[0] == "ok" and expected_construct(cls, args, kwargs)[0] == "ok",
+                                                         all(getattr(result[1], k) == v and type(getattr(result[1], k)) is type(v)
+                                                             for k, v in expected_construct(cls, args, kwargs)[1].items())), ["C14", "C06"], "converted-arguments"),
+              (lambda cls, args, kwargs, result: implies(result[0] == "ok" and expected_construct(cls, args, kwargs)[0] == "ok",
+                                                         getattr(result[1], "__pane_set__") == expected_construct(cls, args, kwargs)[2]), ["C14"], "set-record")],
+     note="bounded: pool dataclasses x argument lists (typed objects inside containers, equal-but-differently-typed values, wrong kinds)")
